@@ -329,10 +329,14 @@ func (b *builder) truncateOp(c *chanModel, to uint64) bool {
 	if !b.openChannel(c) {
 		return false
 	}
-	if err := c.store.Truncate(to); err != nil {
-		return b.fail("Truncate %s to=%d leo=%d: %v", c.Key, to, c.leo(), err)
+	// a replica dropping a divergent suffix drops the epoch points that start inside it too
+	if err := c.store.TruncateLogAndHistory(context.Background(), to); err != nil {
+		return b.fail("TruncateLogAndHistory %s to=%d leo=%d: %v", c.Key, to, c.leo(), err)
 	}
 	c.Msgs = c.Msgs[:to]
+	for len(c.History) > 0 && c.History[len(c.History)-1].StartOffset > to {
+		c.History = c.History[:len(c.History)-1]
+	}
 	if c.Adopted > 0 && c.RetainedMax > to {
 		c.RetainedMax = to
 	}
